@@ -423,14 +423,15 @@ func runC11(c *rt.C) {
 	}
 	budget := 1500
 	if c.Tier == "thorough" {
-		budget = 12000
+		budget = 5000
 	}
-	exhaustiveCase := c.Index%8 == 0 && c.Tier == "thorough"
+	// the complete single-fault space for every 8th thorough backup, if it is small enough (<= 2 KiB in all)
+	exhaustiveCase := c.Index%8 == 2 && c.Tier == "thorough" && total <= 2048 // index%4 == 2: poison memory, where huge bogus lengths are cheap
 	if exhaustiveCase {
 		budget = 0
 	}
 	faults, exh := b.singleFaults(r, budget)
-	if mem == "go" && !exh {
+	if mem == "go" {
 		// A fault in the most significant byte of a frame's length prefix makes the loader allocate
 		// 16 MiB - 4 GiB, which the Go allocator has to zero (0.1 - 4 s each). They form one
 		// equivalence class (huge length, then EOF): keep a handful per backup in Go-managed mode;
@@ -441,6 +442,7 @@ func runC11(c *rt.C) {
 			if (f.Op == "flip" || f.Op == "set") && msb[f.File][f.Off] {
 				huge++
 				if huge > 6 {
+					exh = false
 					continue
 				}
 			}
@@ -514,7 +516,7 @@ func init() {
 	rt.Register(&rt.Prop{
 		ID: "C11", Level: "fault_enumeration",
 		Technique: "fault injection with runtime monitoring: enumerated single faults (bit flips, byte overwrites, every truncation length, deletion) and multi-shard faults applied to real backups; each outcome classified as error / exact / wrong / panic / stuck (stuck decided from a goroutine profile: caller parked in channel send and no loader goroutine left)",
-		Rule: "each case stores one small multi-version database (1-20 keys, 16 data shards + manifests, with delta interleaving on every second group of cases and a churn goroutine so delta shards are non-empty; DiskBlockSize 64..512Ki; Go/poison/pageguard memory) and applies single faults to every file class (data shard, delta shard, files.json, checksums.json, their delta counterparts, nitro.json): every deletion, and a stratified seeded sample of {flip each bit, set 0x00, set 0xFF at each byte; truncate to each length} (quick ≈1500 per backup, thorough ≈12000, and the complete single-fault space for every 8th thorough case), load concurrency rotating over 1,2,3,8,16; then k∈{concurr-1,concurr,concurr+1,all} shard files truncated or deleted at once for concurr∈{1,2,3,8}. " +
+		Rule: "each case stores one small multi-version database (1-20 keys, 16 data shards + manifests, with delta interleaving on every second group of cases and a churn goroutine so delta shards are non-empty; DiskBlockSize 64..512Ki; Go/poison/pageguard memory) and applies single faults to every file class (data shard, delta shard, files.json, checksums.json, their delta counterparts, nitro.json): every deletion, and a stratified seeded sample of {flip each bit, set 0x00, set 0xFF at each byte; truncate to each length} (quick ≈1500 per backup, thorough ≈5000, and the complete single-fault space for every 8th thorough backup of at most 2 KiB), load concurrency rotating over 1,2,3,8,16; then k∈{concurr-1,concurr,concurr+1,all} shard files truncated or deleted at once for concurr∈{1,2,3,8}. " +
 			"evaluations = damaged loads; distinct = (file class, operator, outcome, load concurrency, delta) tuples",
 		Assumptions: []string{"an error return is always acceptable; success is acceptable only with exactly the stored items and Count", "the fault model is damage to a directory written by a successful StoreToDisk (appending bytes is not modelled)"},
 		Cases: func(t string) int {
